@@ -230,10 +230,14 @@ def check_model(chk, name, decls, cfg, tier, rng, compilers):
         chk.violation(f'{name}: shell cannot be used from a translation unit other than its own source: {first[:240]}',
                       {'cfg': cfg, 'decls': decls, 'compiler_output': proc.stderr[:2500]}, sig)
     else:
-        run = subprocess.run([os.path.join(gdir, 'user')], input=f'construct {"001" if info.origin == "create" else "111"}\nquit\n',
-                             capture_output=True, text=True, timeout=60, check=False)
-        if '"ok":true' not in run.stdout:
-            chk.violation(f'{name}: separately compiled shell does not construct: {run.stdout[:200]} {run.stderr[:200]}',
+        try:
+            run = subprocess.run([os.path.join(gdir, 'user')], input=f'construct {"001" if info.origin == "create" else "111"}\nquit\n',
+                                 capture_output=True, text=True, timeout=300, check=False)
+            out, err = run.stdout, run.stderr
+        except subprocess.TimeoutExpired:
+            out, err = '', 'did not finish within 300 s'
+        if '"ok":true' not in out:
+            chk.violation(f'{name}: separately compiled shell does not construct: {out[:200]} {err[:200]}',
                           {'cfg': cfg, 'decls': decls}, {'kind': 'separate-tu-failure'})
 
 
